@@ -2,10 +2,10 @@
    Each op line carries the event AND the values the implementation's sampler / float
    arithmetic produced (key=value fields); the driver prints the model's post-state in the
    harness's canonical format. -/
-import Hy.Model.BbrProfiles
+import Hy.Model.BbrFull
 import Hy.Drv.Util
 namespace Hy.Drv.Bbr
-open Hy Hy.Bbr Hy.Drv
+open Hy Hy.Bbr Hy.Drv Hy.Sampler
 
 def modeNum : Mode → Nat
   | .startup => 0 | .drain => 1 | .probeBw => 2 | .probeRtt => 3
@@ -34,9 +34,88 @@ def parsePkts (s : String) : Option (List (Int × Nat)) :=
     | [a, b] => do let pn ← a.toInt?; let sz ← b.toNat?; pure (pn, sz)
     | _ => none
 
-/-- the recorded environment, positional: sampleValid sampleAppLimited sendStateInflight sampleRtt bytesAcked
-    bytesLost totalAcked excessAcked maxAckHeight bw rttMin tgtPacing tgt1 tgtCwnd growthTarget lossThresh
-    targetRate rnd bps -/
+/-- sampler part of the state line, same order as `samplerState()` in zz_verif_c12_bbr.go:
+    totalBytesSent totalBytesAcked totalBytesLost totalBytesSentAtLastAckedPacket lastAckedPacketSentTime
+    lastAckedPacketAckTime lastSentPacket lastAckedPacket isAppLimited endOfAppLimitedPhase slotsUsed firstPacket
+    presentEntries a0Len recent0(time,bytes) recent1(time,bytes) | epochStart epochBytes lastSentBeforeEpoch numEpochs
+    3 x (extraAcked bytesAcked timeDelta round time) totalBytesAckedAfterLastAckEvent | 3 x (maxBw sample, time) -/
+def showSampler (st : Full) : String :=
+  let m := st.smp
+  let t := m.tracker
+  let est (e : ExtraAckedEvent × Nat) : String :=
+    s!" {e.1.extraAcked} {e.1.bytesAcked} {e.1.timeDelta} {e.1.round} {e.2}"
+  let bw (e : Nat × Nat) : String := s!" {e.1} {e.2}"
+  s!"{m.totalBytesSent} {m.totalBytesAcked} {m.totalBytesLost} {m.totalBytesSentAtLastAckedPacket} {m.lastAckedPacketSentTime} {m.lastAckedPacketAckTime} {m.lastSentPacket} {m.lastAckedPacket} {showBool m.isAppLimited} {m.endOfAppLimitedPhase} {m.map.slotsUsed} {m.map.first} {m.map.present} {m.a0.len} {m.recent0.ackTime} {m.recent0.totalBytesAcked} {m.recent1.ackTime} {m.recent1.totalBytesAcked}" ++
+  s!" | {t.epochStart} {t.epochBytes} {t.lastSentBeforeEpoch} {t.numEpochs}" ++ est t.filter.e0 ++ est t.filter.e1 ++ est t.filter.e2 ++
+  s!" {m.totalBytesAckedAfterLastAckEvent} |" ++ bw st.maxBw.e0 ++ bw st.maxBw.e1 ++ bw st.maxBw.e2
+
+def showFull (st : Full) (bps : Int) : String := showState st.core bps ++ " | " ++ showSampler st
+
+/-- the sample returned by the sampler: sampleMaxBandwidth sampleIsAppLimited sampleRtt sampleMaxInflight extraAcked
+    lastPacketSendState(isValid isAppLimited totalBytesSent totalBytesAcked totalBytesLost bytesInFlight) -/
+def showSample (e : EventSample) : String :=
+  let s := e.lastPacketSendState
+  s!"{e.sampleMaxBandwidth} {showBool e.sampleIsAppLimited} {e.sampleRtt} {e.sampleMaxInflight} {e.extraAcked} {showBool s.isValid} {showBool s.isAppLimited} {s.totalBytesSent} {s.totalBytesAcked} {s.totalBytesLost} {s.bytesInFlight}"
+
+/-- the recorded float-scaled values, positional: appLimitedPre rttMin tgtPacing tgt1 tgtCwnd growthTarget
+    lossThresh targetRate rnd bps -/
+def parseRec : List String → Option (Recorded × Int)
+  | [al, rtt, tp, t1, tc, gt, lt, tr, rnd, bps] => do
+    let r : Recorded :=
+      { appLimPre := ← parseBool al, rttMin := ← rtt.toNat?, tgtPacing := ← tp.toNat?, tgt1 := ← t1.toNat?,
+        tgtCwnd := ← tc.toNat?, growthTarget := ← gt.toNat?, lossThresh := ← lt.toNat?, targetRate := ← tr.toNat?,
+        rnd := ← rnd.toNat? }
+    pure (r, ← bps.toInt?)
+  | _ => none
+
+def fullOf (p : String) (mds : Nat) : Option Full :=
+  if p = "std" then some (Full.new stdCfg (Gen.bbr_standard_overestimateAvoidance == 1) (Gen.bbr_standard_reduceExtraAcked == 1) mds)
+  else if p = "con" then some (Full.new conCfg (Gen.bbr_conservative_overestimateAvoidance == 1) (Gen.bbr_conservative_reduceExtraAcked == 1) mds)
+  else if p = "agg" then some (Full.new aggCfg (Gen.bbr_aggressive_overestimateAvoidance == 1) (Gen.bbr_aggressive_reduceExtraAcked == 1) mds)
+  else none
+
+abbrev St := Option Full
+
+def init : St := none
+
+def step (st : St) (line : String) : St × String :=
+  let fs := fields line
+  match fs with
+  | "note" :: _ => (st, "note")
+  | "stall" :: _ => (st, "note")
+  | ["new", p, mds, bps] =>
+    match mds.toNat?, bps.toInt? with
+    | some mds, some bps =>
+      match fullOf p mds with
+      | some s => (some s, s!"ok {showFull s bps}")
+      | none => (st, "bad-op")
+    | _, _ => (st, "bad-op")
+  | ["sent", t, infl, pn, sz, r, bps] =>
+    match st, t.toInt?, infl.toInt?, pn.toInt?, sz.toInt?, parseBool r, bps.toInt? with
+    | some s, some t, some infl, some pn, some sz, some r, some bps =>
+      match s.sent t infl pn sz r with
+      | .ok s' => (some s', s!"ok {showFull s' bps}")
+      | .panic => (st, "panic")
+      | .reject => (st, "reject")
+    | _, _, _, _, _, _, _ => (st, "bad-op")
+  | ["mds", n, bps] =>
+    match st, n.toNat?, bps.toInt? with
+    | some s, some n, some bps =>
+      match s.setDatagramSize n with
+      | .ok s' => (some s', s!"ok {showFull s' bps}")
+      | .panic => (st, "panic")
+      | .reject => (st, "reject")
+    | _, _, _ => (st, "bad-op")
+  | "ev" :: prior :: now :: a :: l :: rest =>
+    match st, prior.toNat?, now.toNat?, parsePkts a, parsePkts l, parseRec rest with
+    | some s, some prior, some now, some a, some l, some (r, bps) =>
+      match s.event prior now a l r with
+      | .ok o => (some o.st, s!"ok {showFull o.st bps} | {showSample o.es} {o.lu}")
+      | .panic => (st, "panic")
+      | .reject => (st, "reject")
+    | _, _, _, _, _, _ => (st, "bad-op")
+  | _ => (st, "bad-op")
+
 def parseEnv : List String → Option (Env × Int)
   | [sv, sa, si, srtt, ba, bl, ta, xa, mah, bw, rtt, tp, t1, tc, gt, lt, tr, rnd, bps] => do
     let sampleRtt ← if srtt = "inf" then some none else srtt.toNat?.map some
@@ -49,11 +128,13 @@ def parseEnv : List String → Option (Env × Int)
     pure (env, ← bps.toInt?)
   | _ => none
 
-abbrev St := Option S
+abbrev CoreSt := Option S
 
-def init : St := none
+def initCore : CoreSt := none
 
-def step (st : St) (line : String) : St × String :=
+/-- `hydrv bbrcore`: control logic only, sampler outputs recorded (used for the long fat-path trace,
+    where the list-backed queue model would be slow) -/
+def stepCore (st : CoreSt) (line : String) : CoreSt × String :=
   let fs := fields line
   match fs with
   | "note" :: _ => (st, "note")
@@ -87,5 +168,6 @@ def step (st : St) (line : String) : St × String :=
       | .reject => (st, "reject")
     | _, _, _, _, _, _ => (st, "bad-op")
   | _ => (st, "bad-op")
+
 
 end Hy.Drv.Bbr
